@@ -290,13 +290,19 @@ class LinInterp(eir.Interp):
         s = self.L.solver
         s.push()
         try:
+            if self.lazy_feasibility:
+                s.set("timeout", 3000 if self.lazy_feasibility is True else int(self.lazy_feasibility))
             for x in self.lin_pc:
                 s.add(x)
             s.add(c)
             r = s.check()
         finally:
             s.pop()
+            if self.lazy_feasibility:
+                s.set("timeout", self.L.timeout_ms)
         if r == z3.unknown:
+            if self.lazy_feasibility:
+                return True        # undecided: explore the side (over-approximation; the harness's VC is stated under the path condition)
             raise ExecError("solver", "unknown on affine feasibility query")
         return r == z3.sat
 
